@@ -157,6 +157,25 @@ Verdict check_mask_rhumb(const J& r) {
   const unsigned RB[5] = {Rhumb::LATITUDE, Rhumb::LONGITUDE, Rhumb::AZIMUTH, Rhumb::DISTANCE, Rhumb::AREA};
   ref::Ellipsoid E(a, f);
   L eps = 2.3e-16L;
+  {
+    // LONG_UNROLL is an output-mask bit too: it may change lon2 by a multiple of 360 degrees only; lat2 and S12 must not
+    // depend on it (a rhumb line sweeping more than 180 degrees of longitude has the same area either way)
+    double la0, lo0, S0, la1, lo1, S1;
+    rh.GenDirect(lat1, lon1, azi, s12, Rhumb::ALL, la0, lo0, S0);
+    rh.GenDirect(lat1, lon1, azi, s12, Rhumb::ALL | Rhumb::LONG_UNROLL, la1, lo1, S1);
+    auto same = [](double p, double q) { return p == q || (std::isnan(p) && std::isnan(q)); };
+    v.that(same(la0, la1), "rhumb direct lat2 depends on LONG_UNROLL");
+    if (std::isnan(S0) || std::isinf(S0)) v.that(same(S0, S1), "rhumb direct S12 depends on LONG_UNROLL (non-finite)");
+    else v.le(fabsl((L)S0 - (L)S1), 64 * eps * E.c2 * (10 + fabsl((L)lo1 - (L)lon1) / 57.3L), "rhumb direct S12 with vs without LONG_UNROLL [m^2]");
+    if (std::isfinite(lo0) && std::isfinite(lo1)) {
+      L d = remainderl((L)lo1 - (L)lo0, 360.0L);
+      v.le(fabsl(d), 64 * eps * (360 + fabsl((L)lo1) + fabsl((L)lon1)), "rhumb direct lon2 with vs without LONG_UNROLL (mod 360) [deg]");
+      if (std::fabs(lo1 - lon1) > 180) v.tag("rhumb-sweep>180");
+    } else   // from a pole start lon2 is not finite (inf unrolled, NaN once wrapped; the header's promise of finite values there
+             // is known finding C09-pole-endpoint-nonfinite): both settings must agree that it is not a number
+      v.that(!std::isfinite(lo0) && !std::isfinite(lo1), "rhumb direct lon2 finite with one setting of LONG_UNROLL and not with the other");
+    if (v.failed()) return v;
+  }
   for (int unroll = 0; unroll < 2; ++unroll) {
     unsigned U = unroll ? Rhumb::LONG_UNROLL : 0u;
     double La, Lo, S; rh.GenDirect(lat1, lon1, azi, s12, Rhumb::ALL | U, La, Lo, S);
@@ -331,6 +350,23 @@ template <class G, class Line> void third_body(Verdict& v, const G& g, double la
     Line nd = g.Line(lat1, lon1, azi1, G::LATITUDE | G::LONGITUDE);
     nd.SetArc(aa);
     v.that(nd.Arc() == aa && std::isnan(nd.Distance()), "SetArc on a line without DISTANCE: Distance() should be NaN");
+    // a line that can take distances as input (DISTANCE_IN) but cannot return them (no DISTANCE): the third point set by
+    // distance and then by arc.  SetArc documents that the distance is only set with the DISTANCE capability, so afterwards
+    // Distance() is NaN - or, if a number, it must describe the same point as Arc() (never the previous third point)
+    for (int how = 0; how < 2; ++how) {
+      Line di = how ? g.GenDirectLine(lat1, lon1, azi1, false, s, G::DISTANCE_IN | G::LONGITUDE | G::LATITUDE)
+                    : g.Line(lat1, lon1, azi1, G::DISTANCE_IN | G::LONGITUDE | G::LATITUDE);
+      if (!how) di.SetDistance(s);
+      v.that(di.Distance() == s, "third point by distance on a DISTANCE_IN line: Distance() differs");
+      di.SetArc(aa);
+      v.that(di.Arc() == aa, "SetArc after SetDistance (DISTANCE_IN line): Arc() differs");
+      double dd = di.Distance();
+      if (!std::isnan(dd)) {
+        double la1, lo1, la2, lo2; di.Position(dd, la1, lo1); di.ArcPosition(aa, la2, lo2);
+        L p[3], q[3]; ref::to_cart(E, la1, lo1, p); ref::to_cart(E, la2, lo2, q);
+        v.le(ref::dist3(p, q), tolp * (1 + fabsl((L)aa) / 90), "SetArc after SetDistance on a line without DISTANCE: Distance() and Arc() describe different points [m]");
+      }
+    }
   }
 }
 
@@ -351,7 +387,9 @@ vf::Reg r2({"C12.mask.inverse", "generated point pairs (singular classes over-we
 vf::Reg r3({"C12.mask.rhumb", "generated rhumb direct/inverse/line problems x all 32 output-bit subsets x LONG_UNROLL x 2 sentinels, series and exact; non-trivial: s12 != 0", 0.15,
             [] { return rc::gen::exec([] { J r = J::obj(); bool ex = vf::g::coin(); gg::Ell e = gg::ellipsoid(gg::SERIES_FULL); if (!ex && std::fabs(e.f) > 0.01) e.f *= 0.5;
                                            r["exact"] = J::integer(ex); r["a"] = J::num(e.a); r["f"] = J::num(e.f);
-                                           r["lat1"] = J::num(gg::latitude()); r["lon1"] = J::num(gg::angle()); r["azi1"] = J::num(gg::angle()); r["len"] = J::num(gg::distance(e.a, 2));
+                                           r["lat1"] = J::num(gg::latitude()); r["lon1"] = J::num(gg::angle());
+                                           r["azi1"] = J::num(vf::g::coin(1, 3) ? vf::g::sgn() * (90 + vf::g::sgn() * vf::g::loguni(1e-9, 30.0)) : gg::angle());   // a third nearly east-west: large longitude sweeps
+                                           r["len"] = J::num(gg::distance(e.a, 2));
                                            r["lat2"] = J::num(gg::latitude()); r["lon2"] = J::num(gg::angle()); return r; }); }, check_mask_rhumb, nullptr});
 vf::Reg r4({"C12.caps", "generated lines x all 256 capability subsets x output masks (all 128 for every 7th subset, every 5th otherwise); uninitialised lines; non-trivial: length != 0", 0.1,
             [] { return rc::gen::exec([] { return gen_geod(false); }); }, check_caps, nullptr});
